@@ -1,6 +1,6 @@
 CONSTANTS
-  MaxDim = 4
-  MaxIds = 4
+  MaxDim = 5
+  MaxIds = 6
 SPECIFICATION Spec
 CHECK_DEADLOCK FALSE
 INVARIANT ViewsAgree
